@@ -853,9 +853,20 @@ impl Inner {
                 }
 
                 // The stream must be receive open
-                if !stream.state.ensure_recv_open()? {
-                    proto_err!(conn: "recv_push_promise: initiating stream is not opened");
-                    return Err(Error::library_go_away(Reason::PROTOCOL_ERROR));
+                match stream.state.ensure_recv_open() {
+                    Ok(true) => {}
+                    Ok(false) => {
+                        proto_err!(conn: "recv_push_promise: initiating stream is not opened");
+                        return Err(Error::library_go_away(Reason::PROTOCOL_ERROR));
+                    }
+                    // We have reset the stream ourselves: the promise may
+                    // have been sent before our RST_STREAM arrived, which
+                    // has to be handled (RFC 9113 section 6.6). Refuse the
+                    // promised stream instead of failing the connection.
+                    Err(_) if stream.state.is_local_error() => {
+                        return Err(Error::library_reset(promised_id, Reason::REFUSED_STREAM));
+                    }
+                    Err(e) => return Err(e),
                 }
 
                 stream.key()
